@@ -195,6 +195,8 @@ theorem act_stream (c : Conn) (f : Bool) (a : Act) (h : StreamInv c) : StreamInv
     · exact h
   | stopRead => simp only [act]; exact StreamInv.of_same (handOff_same _ _ _ _ _ stopReadInLoop_same) h
   | startRead => simp only [act]; exact StreamInv.of_same (handOff_same _ _ _ _ _ startReadInLoop_same) h
+  | setWc k => exact StreamInv.of_same (c := c) ⟨rfl, rfl, rfl, rfl⟩ h
+  | setHwm k m => exact StreamInv.of_same (c := c) ⟨rfl, rfl, rfl, rfl⟩ h
 
 theorem actLoop_stream (c : Conn) (a : Act) (h : StreamInv c) : StreamInv (actLoop c a) := act_stream c false a h
 theorem actForeign_stream (c : Conn) (a : Act) (h : StreamInv c) : StreamInv (actForeign c a) := act_stream c true a h
